@@ -362,6 +362,21 @@ example : ((buildAll W₀ [hAccount, hLenient])[1]?.map fun B => (B.parser.field
 example : (buildAll W₀ [hAccount, hLenient])[0]?.map (·.parser.ciNames) = (buildAll W₀ [hAccount])[0]?.map (·.parser.ciNames) := by
   decide
 
+/-- `class Base(Schema): limit: PositiveInt = 10`, `class Mid(Base): pass`, `class Leaf(Mid): limit = 20` (no annotation):
+the annotation written two levels up is the type of `Leaf.limit` (`parser.annotations` accumulates over every level),
+so `Leaf(limit=<unconvertible>)` fails as `Base` does. -/
+def tBase : ClassDecl Nat := { fields := [{ attname := 0, ty := some 0, default := some 10 }], opts := {} }
+def tMid : ClassDecl Nat := { fields := [], opts := {}, bases := [0], ownOpts := false }
+def tLeaf : ClassDecl Nat := { fields := [{ attname := 0, ty := none, default := some 20 }], opts := {}, bases := [1], ownOpts := false }
+
+example : ((buildAll W₀ [tBase, tMid, tLeaf])[2]?.map fun B => B.parser.fields.map (·.2.ty)) = some [some 0] := by decide
+example : (initSchemaH {} W₀ [tBase, tMid, tLeaf] 2 none [(0, 99)]).map (fun o => match o with | .raised e => some e | _ => none)
+    = some (some (.parse 0)) := by decide
+/-- without any annotation up the chain the value is taken as it is -/
+example : ((buildAll W₀ [({ fields := [], opts := {} } : ClassDecl Nat),
+      ({ fields := [{ attname := 0, ty := none }], opts := {}, bases := [0] } : ClassDecl Nat)])[1]?.map
+      fun B => B.parser.fields.map (·.2.ty)) = some [none] := by decide
+
 /-- a value dropped by the 'exclude' policy leaves the field as one that was not given: its default applies but it
 does not satisfy another field's dependency.  Before utype 107a5ff the default counted as a given value. -/
 def cExcl : ClassDecl Nat :=
